@@ -86,6 +86,36 @@ type XRec struct {
 	K int64          `json:"k"`
 }
 
+// XKindP / XKindV / XKindI: members of INLINED one-ofs: the discriminator is a property of the member,
+// mapped to an optional field (nil pointer = unset) or to a plain field (unset only under
+// treat-empty-as-default).  XKindI: integer keys.
+type XKindP struct {
+	Kind *string `json:"kind"`
+	X    string  `json:"x"`
+}
+type XKindV struct {
+	Kind string `json:"kind"`
+	Y    int64  `json:"y"`
+}
+type XKindI struct {
+	Kind *int64 `json:"kind"`
+	Z    int64  `json:"z"`
+}
+
+// XHold: a struct parent whose member is a one-of (reflected type: any).
+type XHold struct {
+	O any   `json:"o"`
+	K int64 `json:"k"`
+}
+
+// XMid: three levels with a PLAIN (map-based) object in the middle: the parent's field is the map the
+// middle object unserializes to; that object has an object-typed property of its own.
+type XMid struct {
+	M map[string]any `json:"m"`
+	In XInner        `json:"in"`
+	K  *int64        `json:"k"`
+}
+
 type xtyped struct {
 	unser     func(any) (any, error)
 	validate  func(any) (error, bool)
@@ -169,6 +199,11 @@ func init() {
 	xreg[XEmbPtr]()
 	xreg[XLoose]()
 	xreg[XRec]()
+	xreg[XKindP]()
+	xreg[XKindV]()
+	xreg[XKindI]()
+	xreg[XHold]()
+	xreg[XMid]()
 	extraSchemaBuilders["xobject"] = func(n *sx.Node) schema.Type { return buildXObject(n) }
 }
 
